@@ -81,7 +81,7 @@ theorem creep_interp (s : St α) (h : Creep s) : useBisect s (interpDx s) = fals
     rw [h.a4]; intro hc; nlinarith
   rw [Bool.eq_false_iff]
   intro hu
-  simp only [useBisect, absv_eq_abs, Bool.or_eq_true, Bool.and_eq_true, decide_eq_true_eq,
+  simp only [useBisect_eq, useBisect5, absv_eq_abs, Bool.or_eq_true, Bool.and_eq_true, decide_eq_true_eq,
     Bool.not_eq_true'] at hu
   rcases hu with ((((hu | hu) | ⟨hb1, hu⟩) | ⟨hb0, hu⟩) | ⟨hb1, hu⟩) | ⟨hb0, hu⟩
   · exact c1 hu
@@ -119,7 +119,7 @@ theorem creep_step (s : St α) (h : Creep s) :
         = { (getNext s).1 with b := s.b / 2, fb := creepF (s.b / 2) } := by
       unfold updateInterval
       have : (getNext s).1.fa * creepF (s.b / 2) < 0 := by rw [hfa]; nlinarith
-      simp [this]
+      simp [(oppSign_iff _ _).mpr this]
     rw [hu]
     unfold swapIfNeeded
     have : ¬ (absv (getNext s).1.fa < absv (creepF (s.b / 2))) := by
@@ -164,7 +164,7 @@ theorem creep_init {s0 : St α} (h : init (-4 : α) 1 (creepF (-4)) (creepF 1) 1
   obtain ⟨hle, hlt, hinv, _, _, he, hbis, hc, hcase⟩ := init_some h
   have hfc : s0.fc = s0.fa := by
     unfold init at h
-    simp only [hle, hlt, not_true_eq_false, if_false, Option.some.injEq] at h
+    simp only [hle, (oppSign_iff _ _).mpr hlt, not_true_eq_false, if_false, Option.some.injEq] at h
     rw [← h]
   have hnoswap : s0.a = -4 ∧ s0.b = 1 ∧ s0.fa = creepF (-4) ∧ s0.fb = creepF 1 := by
     rcases hcase with hcase | ⟨_, _, e1, e2⟩
@@ -185,7 +185,8 @@ theorem creep_init_some : ∃ s0 : St α, init (-4 : α) 1 (creepF (-4)) (creepF
   have hf1 : creepF (1 : α) = 1 / 72 := by unfold creepF; norm_num
   unfold init
   have h1 : ¬ ¬ ((-4 : α) ≤ 1) := by norm_num
-  have h2 : ¬ ¬ (creepF (-4 : α) * creepF 1 < 0) := by rw [hf4, hf1]; norm_num
+  have h2 : ¬ ¬ (oppSign (creepF (-4 : α)) (creepF 1) = true) := by
+    rw [not_not, oppSign_iff, hf4, hf1]; norm_num
   rw [if_neg h1, if_neg h2]
   exact ⟨_, rfl⟩
 
